@@ -6,7 +6,7 @@ class C26(Spec):
     drv = "drv_c25"          # same op language and driver as C25 (the log is part of the chain model)
     harness = "h_c26"
     lean_deps = ("C25",)
-    required_theorems = ("C26.seq_consecutive", "C26.seq_no_reuse", "C26.replay_eq_best")
+    required_theorems = ("C26.seq_consecutive", "C26.seq_no_reuse", "C26.replay_eq_best", "C26.replay_eq_chain")
     partial = ()
     refuted = ()
     quick_timeout = 600
